@@ -29,6 +29,14 @@ FIXED = {
  "fix: rewrite (copy) parses": ("B2", ["C15", "C20"], "copy to a destination containing '/o/' wrote to the truncated name; a destination without '/o/' panicked", "corpus/gcs/B2-copy-dest-with-o.json"),
  "fix: the file store makes each object operation atomic": ("B8", ["C07", "C09"], "file store: a read overlapping an upload/compose/copy of the same object was served new content with old or no metadata (torn read)", "corpus/gcsconc/B8-filestore-torn-read.json"),
  "fix: upload and patch read the metadata they respond with": ("D1", ["C07", "C10", "C20"], "upload/patch built their response from a metadata read taken after releasing the object lock: it could describe a concurrent writer's object, and panicked if the object had just been deleted", "corpus/gcsconc/D1-upload-response-after-unlock-foreign.json"),
+ "fix: DeleteTable removes the table's definition": ("A6", ["C08", "C14"], "disk storage: a deleted table (with its rows) was served again after a restart; rows left by a deleted table could be served under a re-created one", "corpus/btcrash/A6-deleted-table-reappears.json"),
+ "fix: ModifyColumnFamilies persists the new definition": ("A14", ["C08"], "disk storage: a restart at the instrumented points of a family drop served the old families with their data already purged (neither before nor after)", "corpus/btcrash/A14-family-drop-half-applied.json"),
+ "fix: compose rejects a null entry": ("R1", ["C20"], "compose with {\"sourceObjects\":[null]} panicked (nil dereference)", "harness/internal/robust/gcs.go Directed()"),
+ "fix: media download of an object marked gzip": ("B4", ["C20"], "media GET of an object marked contentEncoding gzip whose bytes are not gzip panicked (nil gzip reader)", "harness/internal/robust/gcs.go Directed()"),
+ "fix: a metadata patch whose body is the JSON value null": ("R2", ["C20"], "PATCH with the body null panicked (nil object)", "harness/internal/robust/gcs.go Directed()"),
+ "fix: GetTable, CreateTable and ModifyColumnFamilies return a copy": ("A16b", ["C20"], "schema changes while fetching the schema: the live definition was encoded while ModifyColumnFamilies changed it — fatal 'concurrent map iteration and map write'", "robustmix (concurrent mix child process)"),
+ "fix: the memory store creates and fetches a bucket": ("B11", ["C20"], "memory store: an upload or copy racing a bucket deletion dereferenced a nil bucket", "robustmix (concurrent mix child process)"),
+ "fix: an upload whose bucket is deleted": ("R3", ["C20"], "an upload whose bucket was deleted before the response was built dereferenced nil metadata", "robustmix (concurrent mix child process)"),
  "fix: compose without a destination": ("B3", ["C15", "C20"], "compose without a destination resource panicked (nil dereference)", "corpus/gcs/B3-compose-without-destination.json"),
 }
 
